@@ -28,7 +28,7 @@ RULE = ('cases = (pass-through function, table, arguments, target kind); seeded 
         'Non-trivial: the table has >= 2 data rows. Distinct = SHA-1 of the case.')
 ASSUMPTIONS = ['tee targets: MemorySource and plain file paths', 'a tee is compared with to* only after it was iterated to the end']
 FNS = ['teecsv', 'teetsv', 'teepickle', 'teetext', 'teehtml', 'progress', 'log_progress', 'clock', 'cache', 'wrap']
-REQUIRED = ['progress-under-a-clock-that-does-not-advance', 'field-names-that-are-not-strings', 'table-without-any-row', 'header-without-fields', 'explicit-csv-dialect'] + ['fn:' + f for f in FNS] + ['tee-bytes-compared', 'ragged-table', 'header-only-table', 'write_header=False', 'file-target', 'memory-target',
+REQUIRED = ['progress-under-a-clock-that-does-not-advance', 'cache-cleared-while-a-pass-is-part-way', 'teetext:repeated-field-name-in-the-template', 'field-names-that-are-not-strings', 'table-without-any-row', 'header-without-fields', 'explicit-csv-dialect'] + ['fn:' + f for f in FNS] + ['tee-bytes-compared', 'ragged-table', 'header-only-table', 'write_header=False', 'file-target', 'memory-target',
                                          'cache-limited', 'non-utf8-encoding', 'cache-interleaved-iterators']
 TEXT = ['', 'a', 'b c', 'x,y', 'q"q', "it's", 'é', '€', 'l1\nl2', 'cr\rlf', 'tab\there', '<b>&amp;</b>', ' pad ', '1', '2.5', 'None']
 MIXED = TEXT + [None, 0, 1, -3, 2.5, True, gen.D(2020, 1, 1), (1, 2), b'by']
@@ -76,6 +76,12 @@ def cases(ctx):
                 c['template'] = 'row\n'
             elif not all(str(h).startswith('f') for h in t[0]):
                 t[0] = gen.fieldnames(nf)
+            if not c.get('zero-fields') and nf >= 2 and rng.random() < 0.15:
+                # a field name that occurs twice, and that the template asks for
+                t[0] = list(t[0])
+                t[0][nf - 1] = t[0][0]
+                c['template'] = rng.choice(['{f0}\n', 'row: {f0!r} / {f0}\n'])
+                c['repeated-name'] = True
             c['prologue'] = rng.choice([None, 'BEGIN\n', 'é\n'])
             c['epilogue'] = rng.choice([None, 'END\n'])
         elif fn == 'teehtml':
@@ -139,6 +145,8 @@ def judge(case, ctx):
         ctx.seen('explicit-csv-dialect')
     if n >= 2:
         ctx.mark_nontrivial()
+    if case.get('repeated-name'):
+        ctx.seen('teetext:repeated-field-name-in-the-template')
     if n == 0:
         ctx.seen('header-only-table')
     if table and any(not isinstance(h, str) for h in table[0]):
@@ -231,6 +239,26 @@ def judge(case, ctx):
         del it
         for p in (1, 2):
             if not same_rows(util.attempt_rows(lambda: v), 'pass%d after a partial pass (n=%r)' % (p, lim)):
+                break
+        # clearcache() while a pass is part-way: that pass runs on to its end, and the passes after it are complete too
+        for k_ in range(0, len(rows) + 1):
+            v = _cache(copy.deepcopy(case['table']), n=lim)
+            it = iter(v)
+            got_ = []
+            try:
+                for _ in range(k_):
+                    got_.append(tuple(next(it)))
+                v.clearcache()
+                got_.extend(tuple(r) for r in it)
+            except StopIteration:
+                pass
+            ctx.seen('cache-cleared-while-a-pass-is-part-way')
+            if not same_rows(got_, 'the pass during which clearcache() was called after %d rows (n=%r)' % (k_, lim)):
+                break
+            ok_ = True
+            for p in (1, 2):
+                ok_ = ok_ and same_rows(util.attempt_rows(lambda: v), 'pass%d after a pass with clearcache() at row %d (n=%r)' % (p, k_, lim))
+            if not ok_:
                 break
         return out
 
